@@ -2,3 +2,27 @@ add("C01", "bt", "exploration", "differential runtime monitor: generated mutatio
     "Held on every generated program x engine that was executed: after each MutateRow/MutateRows the whole table and the touched rows, read over real gRPC, equal the reference model cell-for-cell and obey the ordering rules; invalid requests were rejected without effect. Sampling of an infinite program space, so exploration is the honest level.",
     "Trusts the reference model (written from the API documentation), the chunk-stream decoder and the gRPC client library; family order within a row and error codes are not compared.",
     "DESIGN.md 4/C01")
+add("C03", "bt", "exploration", "enumerated RowSets (every single range; every ordered range pair x key option in thorough) vs set-union model + chunk-stream state machine + SampleRowKeys invariants, 3 engines, multi-message streams",
+    "Every ReadRows over the enumerated RowSet space returned exactly the model's key set in order with a well-formed chunk stream; inverted ranges were rejected; limits counted only rows with output; SampleRowKeys invariants held on every call observed. The finite 'two ranges plus one key over the 7-key universe' space is completed in the thorough tier; table contents beyond the three used and larger sets are sampled, hence exploration.",
+    "Trusts the set-union model (40 lines), the chunk decoder and the gRPC client; empty keys inside bounds are not generated.",
+    "DESIGN.md 4/C03")
+add("C05", "bt", "exploration", "differential runtime monitor: independent filter evaluator (own byte-regex matcher) applied to the unfiltered rows as served; complete leaf-boundary list and complete depth-2 compositions over a 24-leaf basis, PRNG trees to depth 4, 3 engines",
+    "Every filtered read executed returned, row by row, exactly the cells the independent evaluator computes (multiset per column, order rules checked), and every invalid argument that the semantics apply to data was rejected with InvalidArgument without killing the server. Complete for the listed finite sub-spaces on the generated tables; deeper trees are sampled.",
+    "Trusts the evaluator written from the Bigtable filter documentation; cases whose result depends on an unspecified order (limit/offset cutting a multi-family or duplicate-bearing interleave result) are counted and not decided; zero limits may be rejected or return nothing.",
+    "DESIGN.md 4/C05")
+add("C12", "bt", "exploration", "differential runtime monitor: predicate_matched vs independent evaluator AND vs ReadRows(filter=predicate) taken just before; row afterwards vs data model applying exactly the selected list; whole table re-read",
+    "On every CheckAndMutateRow executed, predicate_matched equalled 'the predicate yields at least one cell' as computed independently and as observed through a filtered read, exactly the selected mutation list was applied atomically, and nothing else changed; invalid predicates/branches failed without effect.",
+    "Trusts the C05 evaluator and C01 model; predicates whose result is order-dependent are resynchronised, not decided.",
+    "DESIGN.md 4/C12")
+add("C13", "bt", "exploration", "differential runtime monitor: RMW reference model (max(clock,newest ts), 64-bit wrap-around, append, atomic failure) vs response row and full re-read under a moving injected clock, 3 engines",
+    "Every ReadModifyWriteRow response and the row read back afterwards equalled the model for all generated rule lists, prior states (future cells, non-8-byte values) and clock values; failing requests changed nothing.",
+    "Trusts the 60-line RMW model; an increment on an existing empty value may fail or count as 0; a request without rules may be rejected or be a no-op.",
+    "DESIGN.md 4/C13")
+add("C14", "bt", "exploration", "differential runtime monitor: registry + data model; after every admin/data request ListTables, GetTable, full scan of every live table and NotFound probes on every non-existent name, 3 engines",
+    "After every request of every generated program the complete observable registry (tables per parent, families with GC rules) and all row data equalled the model: failed multi-modification requests changed nothing, dropped families lost exactly their cells, prefix drops removed exactly the prefixed rows, deleted tables were unreachable and re-created empty.",
+    "Trusts the registry/data model; ModifyColumnFamilies error codes not compared; empty-prefix DropRowRange may be rejected or clear the table.",
+    "DESIGN.md 4/C14")
+add("C17", "bt", "exploration", "model-free differential monitor: one generated program fed to btree / leveldb-mem / leveldb-disk servers, canonicalised responses compared pairwise request by request",
+    "For every generated program all three engines returned identical responses to every request (status, message, rows, cells, order, per-entry statuses, predicate results, schema), including scans that fail part-way and limit-truncated scans. Independent of any reference model.",
+    "Row-sample filters excluded; SampleRowKeys reduced to its last key; assumes the gRPC layer is deterministic.",
+    "DESIGN.md 4/C17")
